@@ -60,7 +60,41 @@ def monitor_c15(suite) -> tuple[list, int]:
             vio.append({"law": "an explicitly reported simulator type (hybrid) is respected, whatever the version", **case})
         if (obs["warn"] == "1") != (version < [3] and exp is None):
             vio.append({"law": "outdated warning", **case})
+    n += _c15_restart_cases(vio)
     return vio, n
+
+
+def _c15_restart_cases(vio):
+    """One sim_config entry with an explicit api_version started more than once: EVERY instance is checked against the configured
+    version (a second instance reporting another version is rejected, also after a rejected first start), and the user's
+    sim_config entry is left alone."""
+    n = 0
+    for explicit, first, second in [("3.0", "3.0", "2.2"), ("2.2", "2.2", "3.0"), ("2.0", "2.0", "2.2"), ("3.0", "2.2", "2.2"), ("2.2", "3.0", "2.0")]:
+        n += 1
+        cfg = {"python": "verif_stubs:Stub", "api_version": explicit}
+        loop = asyncio.new_event_loop()
+        w = mosaik.World({"S": cfg}, asyncio_loop=loop, skip_greetings=True)
+        got = []
+        try:
+            with warnings.catch_warnings():
+                warnings.simplefilter("ignore")
+                for k, rep in enumerate((first, second)):
+                    sw.MOD.Stub = sw.make_stub(True, True, {"api_version": rep, "type": "hybrid", "models": {"M": {"public": True, "params": [], "attrs": ["a"]}}})
+                    try:
+                        w.start("S", sim_id=f"A{k}")
+                        got.append("accepted")
+                    except ScenarioError:
+                        got.append("ScenarioError")
+            want = ["accepted" if first == explicit else "ScenarioError", "accepted" if second == explicit else "ScenarioError"]
+            case = {"configured_api_version": explicit, "reported_by_first_instance": first, "reported_by_second_instance": second}
+            if got != want:
+                vio.append({"law": "a version different from the configured api_version is rejected at start - for every instance started from the entry",
+                            "observed": got, "expected": want, **case})
+            if cfg.get("api_version") != explicit:
+                vio.append({"law": "start() leaves the user's sim_config entry alone", "entry_after": {k: str(v) for k, v in cfg.items()}, **case})
+        finally:
+            sw.close_world(w)
+    return n
 
 
 def snapshot(w):
